@@ -520,6 +520,13 @@ def slots(agent):
     for n in ("scores", "fitness", "steps"):
         v = getattr(a, n)
         out.append((n, "book", ("O", id(v)), _fp_obj(v)))
+    # every other list attribute holding plain values (bandit regret, agent id lists, user-added lists ...) is a mutable
+    # bookkeeping object as well
+    for n, v in sorted(vars(a).items()):
+        if n in ("scores", "fitness", "steps") or n in PLAIN_IGNORE or not isinstance(v, list):
+            continue
+        if _plain(v)[0]:
+            out.append((n, "book", ("O", id(v)), _fp_obj(v)))
     attrs = EvolvableAlgorithm.inspect_attributes(a)
     # a constant / ext tensor that is the same storage as an earlier slot of this agent is the same cell: listed once
     seen_ptr, dedup = set(), []
@@ -544,21 +551,29 @@ def slots(agent):
 
 
 def wrapper_slots(agent):
-    """extra slots of an AgentWrapper (e.g. RSNorm running statistics)"""
+    """extra slots of an AgentWrapper: every tensor reachable from the wrapper's own attributes through objects, dicts,
+    tuples and lists (RSNorm running statistics: one RunningMeanStd, or a dict / tuple of them for Dict / Tuple spaces)"""
     out = []
     if unwrap(agent) is agent:
         return out
+
+    def walk(name, v, depth):
+        if isinstance(v, torch.Tensor):
+            if v.numel() > 0:
+                out.append((name, "ext", ("T", v.data_ptr()), _fp_tensor(v)))
+        elif depth > 3 or callable(v) or isinstance(v, (EvolvableAlgorithm, spaces.Space, torch.nn.Module)):
+            return
+        elif isinstance(v, dict):
+            for k, x in sorted(v.items(), key=lambda kv: str(kv[0])):
+                walk(f"{name}.{k}", x, depth + 1)
+        elif isinstance(v, (list, tuple)):
+            for k, x in enumerate(v):
+                walk(f"{name}[{k}]", x, depth + 1)
+        elif hasattr(v, "__dict__"):
+            for k, x in sorted(vars(v).items()):
+                walk(f"{name}.{k}", x, depth + 1)
     for n, v in sorted(vars(agent).items()):
-        if isinstance(v, torch.Tensor) and v.numel() > 0:
-            out.append((f"wrapper.{n}", "ext", ("T", v.data_ptr()), _fp_tensor(v)))
-        elif hasattr(v, "__dict__") and not callable(v) and not isinstance(v, EvolvableAlgorithm):
-            for n2, v2 in sorted(vars(v).items()):
-                if isinstance(v2, torch.Tensor) and v2.numel() > 0:
-                    out.append((f"wrapper.{n}.{n2}", "ext", ("T", v2.data_ptr()), _fp_tensor(v2)))
-                elif isinstance(v2, dict):
-                    for k3, v3 in sorted(v2.items(), key=lambda kv: str(kv[0])):
-                        if isinstance(v3, torch.Tensor) and v3.numel() > 0:
-                            out.append((f"wrapper.{n}.{n2}.{k3}", "ext", ("T", v3.data_ptr()), _fp_tensor(v3)))
+        walk(f"wrapper.{n}", v, 0)
     return out
 
 
@@ -762,6 +777,16 @@ def apply_select(pop, draws, elitism=True, tournament_size=2):
         np.random.randint = orig
     best = max(range(len(pop)), key=lambda i: np.mean(unwrap(pop[i]).fitness[-1:]))
     return list(new_pop) + [elite], best
+
+
+def apply_tags(agent, i):
+    """attributes a user adds to an agent after construction: copy_attributes must deep-copy them onto a clone although
+    the freshly constructed clone does not have them (its last branch)"""
+    a = unwrap(agent)
+    a.user_list = [i, i + 1]
+    a.user_arr = np.arange(3.0) + i
+    a.user_t = torch.ones(2) * (i + 1)
+    a.user_num = 7 + i
 
 
 def apply_score(agent, x):
